@@ -597,7 +597,10 @@ where
 /// A type used for more advanced ways of allocating a [`Gc`].
 pub struct GcBuilder<'gc, T: ?Sized, M = (), P = UnitPtrMeta> {
     ptr: GcPtr<T>,
-    _marker: PhantomData<(Invariant<'gc>, M, P)>,
+    // A builder is a *sink* for `T` (see `GcBuilder::write` and `GcBuilder::as_ptr`), so it must be
+    // invariant in `T`. If it were covariant, a `GcBuilder<&'static X>` could be coerced into a
+    // `GcBuilder<&'gc X>` and then be completed with a `&'gc X` without `&'gc X: Collect`.
+    _marker: PhantomData<(Invariant<'gc>, M, P, *mut T)>,
 }
 
 impl<'gc, T: ?Sized, M, P> Drop for GcBuilder<'gc, T, M, P> {
